@@ -14,6 +14,10 @@ def base_scenarios(seed, tier):
         ops = [manifest_op(g)] + [{"op": "write", "path": f} for f in sources(g)]
         for h in ("h1.h", "h2.h"):
             ops.append({"op": "write", "path": h})
+        for s in g["steps"]:
+            for h in s["eff"].get("reads", []):
+                if h not in ("h1.h", "h2.h"):
+                    ops.append({"op": "write", "path": h})
         ops.append(invoke([], j=2))
         ops += list(extra_ops)
         if second is not None:
@@ -36,6 +40,13 @@ def base_scenarios(seed, tier):
     # manifest change between: new paths are added to the log
     g4b = graph([step(["a"], ["s1"]), step(["b2"], ["s2"]), step(["c"], ["a", "b2"])])
     scns.append(mk("cr-7", g4, [manifest_op(g4b)], invoke([], j=1)))
+    # a long record (many reported headers) next to steps with short ones: a recovery that records
+    # less than the torn record was long
+    many = ["inc/hdr%02d.h" % i for i in range(40)]
+    g8 = graph([step(["big.o"], ["big.c"], depfile="big.o.d", eff=dep("big.o", many)),
+                step(["sm"], ["s1"]), step(["sm2"], ["s2"]), step(["app"], ["big.o", "sm"])])
+    scns.append(mk("cr-8", g8, [{"op": "write", "path": h} for h in many]
+                   + [{"op": "write", "path": "big.c"}, {"op": "write", "path": "s1"}], invoke([], j=1)))
     n = 6 if tier == "quick" else 60
     for i in range(n):
         h = gen_hist.history(rnd, 9000 + i, "quick")
@@ -65,12 +76,22 @@ def variants(base, trace_lines, tier, rnd):
         elif ev["e"] == "dbw":
             writes.append((ev["idx"], ev["len"], ev["kind"], inv_no))
     inv_ops = [i for i, op in enumerate(base["ops"]) if op["op"] == "invoke"]
+    # targets with a small record of their own: single-output steps without reported dependencies
+    small = []
+    for op in base["ops"]:
+        if op["op"] == "manifest" and "g" in op:
+            small = [s["outs"][0] for s in op["g"]["steps"]
+                     if not s["phony"] and len(s["outs"]) == 1 and not s.get("depfile") and not s.get("msvc")]
+            break
     out = []
     for (idx, ln, kind, ino) in writes:
         if tier == "thorough" or ln <= 9:
             ks = list(range(0, ln + 1))
         else:
             ks = sorted(set([0, 1, 2, 3, ln // 2, ln - 2, ln - 1, ln]))
+        if ln >= 40 and small:
+            # a long record: every alignment of what is left of it behind a short recovery record
+            ks = sorted(set(ks) | set(range(ln - 18, ln)))
         for k in ks:
             v = copy.deepcopy(base)
             v["id"] = "%s@%d.%d" % (base["id"], idx, k)
@@ -82,6 +103,15 @@ def variants(base, trace_lines, tier, rnd):
             v["ops"] = v["ops"][:cut + 1] + [o for o in v["ops"][cut + 1:]] + [invoke([], j=2, cdir=cd), invoke([], j=2, cdir=cd)]
             v["meta"] = {"kind": kind, "len": ln}
             out.append(v)
+            # ... and a variant whose first recovery run records less than the torn record was
+            # long (it builds one small target only), so that whatever the recovery leaves of the
+            # torn bytes would follow the new records
+            if small and ((ln >= 12 and k in (ln - 1, ln - 2, ln // 2)) or (ln >= 40 and k >= ln - 18)):
+                v2 = copy.deepcopy(v)
+                v2["id"] = v["id"] + "s"
+                tgt = small[(idx + k) % len(small)]
+                v2["ops"] = v2["ops"][:cut + 1] + [invoke([tgt], j=1, cdir=cd)] + v2["ops"][cut + 1:]
+                out.append(v2)
     return out
 
 def generate(seed, tier):
